@@ -24,7 +24,8 @@ SPECS = [
     H("h_vk_read::vk_read_postcondition", "C16.K.vk_read.postcondition",
       "on Ok the decoded key is index-safe for the verifier: fixed_commitments.len() >= cs.num_fixed_columns() (verifier.rs indexes fixed_commitments[column.index()] for every fixed query) and permutation commitments == permutation columns",
       [f"{PM}::VerifyingKey::read_from_cs", "proofs/src/plonk/verifier.rs::verify_algebraic_constraints (index expression)"],
-      "same inputs as vk_read.total", "vk-read:commitment-count-unchecked", est=45, timeout={"quick": 300, "thorough": 900}, min_covers=2, stubs=VK_STUBS),
+      "same inputs as vk_read.total", "vk-read:commitment-count-unchecked", est=45, timeout={"quick": 300, "thorough": 900}, min_covers=2, stubs=VK_STUBS,
+      replay=False),  # counterexample via PINS below (Kani's playback emits tests for the covers only, after ~300 s)
     H("h_domain::domain_prefix_min_degree", "C16.K.domain.prefix.min_degree",
       "the integer prefix of EvaluationDomain::new(j = 3, k) (j - 1, 1 << k, the extended_k loop, assert!(extended_k <= F::S)) does not panic for any header byte k that read_from_cs lets through (k <= F::S = 32)",
       [f"{PD}::EvaluationDomain::new (up to the first field operation)", f"{PM}::VerifyingKey::read_from_cs (its only check on k)"],
@@ -40,8 +41,9 @@ SPECS = [
     H("h_arch::pow2range_configure_column_count", "C16.K.pow2range.column_count",
       "Pow2RangeChip::configure(meta, columns) does not panic for any number of columns the decoder lets through (ZkStdLib::configure passes &advice_columns[1..=nr_pow2range_cols], nr_pow2range_cols verbatim from the wire)",
       ["circuits/src/field/decomposition/pow2range.rs::Pow2RangeChip::configure", f"{ZL}::ZkStdLib::configure (call site, not executed)"],
-      "all column counts 0..=6", "vk-read:nr_pow2range_cols-out-of-range", est=10, min_covers=2,
-      stubs=["std::hash::RandomState::new", "midnight_proofs::plonk::ConstraintSystem::lookup (Expression-tree walk)"]),
+      "all column counts 0..=6; the constraint system is an empty one (all-zero memory)", "vk-read:nr_pow2range_cols-out-of-range", est=10, min_covers=2,
+      stubs=["midnight_proofs::plonk::ConstraintSystem::lookup (Expression-tree walk)"],
+      replay=False),  # counterexample via PINS below (Kani's playback run exceeds 20 GB)
     H("h_transcript::serde_read_g1_processed_checked", "C16.K.serde.g1.processed",
       "<G1Projective as ProcessedSerdeObject>::read(_, Processed) never panics on short input and returns Ok only if blst_p1_uncompress succeeded AND the on-curve AND the subgroup oracle said yes",
       ["proofs/src/utils/helpers.rs::<C as ProcessedSerdeObject>::read", "curves/src/bls12_381/g1.rs::G1Projective::from_compressed"],
@@ -62,7 +64,53 @@ def check(run):
         "K/C16: zkir arity-vs-index harnesses (h_zkir::arity_*: process_instruction needs > 300 s / > 12 GB per operation), zkir constants parsing, circuits/src/parsing/serialization.rs, read_f / Polynomial::read (pub(crate))",
         "K/C16: proving keys (local artefacts)",
     ]
-    kani.run_harnesses(run, CRATE, SPECS, jobs=6)
+    obs = kani.run_harnesses(run, CRATE, SPECS, jobs=6)
+    for ob in obs:
+        if ob.status == core.INCONCLUSIVE and "no native replay exists" in (ob.detail or "") and ob.id in PINS:
+            _extract_by_pins(run, ob, *PINS[ob.id])
+
+
+# Counterexample extraction when Kani's concrete playback gives nothing (its un-sliced formula needs > 20 GB
+# for the two harnesses below, or it emits tests for the covers only): the SAME harness body with its symbolic
+# input pinned to one value is re-decided by Kani; the first pin that FAILS (same failed check) gives the
+# concrete values, in the order of the main harness's `any()` calls, which are then replayed natively
+# (level 1: harness body on the real functions; level 2: MidnightVK::read / verify on crafted bytes).
+PINS = {
+    # obligation id -> (main harness, [(pinned harness, concrete_vals of the main harness)])
+    "C16.K.pow2range.column_count": ("h_arch::pow2range_configure_column_count", [
+        ("h_arch::pow2range_pin_5", [[5]]), ("h_arch::pow2range_pin_6", [[6]]),
+        ("h_arch::pow2range_pin_0", [[0]]), ("h_arch::pow2range_pin_4", [[4]])]),
+    "C16.K.vk_read.postcondition": ("h_vk_read::vk_read_postcondition", [
+        ("h_vk_read::vk_read_postcondition_pin_0", [[3], [0], [0], [0], [0], [0], [0], [0], [8, 0, 0, 0, 0, 0, 0, 0]]),
+        ("h_vk_read::vk_read_postcondition_pin_1", [[3], [0], [1], [0], [0], [0], [0], [0], [8, 0, 0, 0, 0, 0, 0, 0]])]),
+}
+
+
+def _extract_by_pins(run, ob, main_harness, pins):
+    import os, time
+    crate = kani._Crate(CRATE, None, ("-Z", "stubbing"), "replay", 12 * 1024 * 1024)
+    t0 = time.time()
+    for pinned, vals in pins:
+        cmd = ["cargo", "kani", "--target-dir", crate.base(), "-Z", "stubbing", "--harness", pinned, "--exact", "--output-format", "terse"]
+        rc, out, dt = kani._sh(cmd, crate.crate_dir, 300, crate.mem_kb, os.path.join(crate.logs, pinned.replace(":", "_") + ".pin.log"))
+        ob.queries += 1
+        r = kani.parse_output(out)
+        genuine = [c for c in r["failed_checks"] if not kani.TOOL_FAILURE_PAT.search(c["description"])]
+        run.log(f"K pin {pinned}: failed={bool(r['failed'])} genuine={len(genuine)} {dt:.0f}s")
+        if not (r["failed"] and genuine) or r["unwinding"] or r["unsupported"]:
+            continue
+        reproduced, detail, per = crate.run_native(main_harness, vals)
+        payload = dict(engine="K", crate=CRATE, harness=main_harness, concrete_vals=vals, failed_checks=genuine, pinned_harness=pinned,
+                       replay_bin="replay", native=per, engine_part="K",
+                       how="counterexample obtained by re-deciding the harness with its input pinned (Kani playback unavailable); "
+                           "check <ID> --replay <this file>: native run of the harness body + real-API scenario")
+        path = run.write_replay(ob, payload)
+        fdesc = "; ".join(f"{c['description']} @ {c['file']}:{c['line']}" for c in genuine)[:300]
+        if reproduced:
+            return ob.set(core.VIOLATION, f"{fdesc}; counterexample pinned by {pinned}; native replay reproduces ({detail})",
+                          solver="cbmc+cadical", solver_s=ob.solver_s + time.time() - t0, replay=path)
+        return ob.set(core.INCONCLUSIVE, f"{fdesc}; pinned counterexample does not reproduce natively ({detail}); see {path}")
+    return ob
 
 
 def replay(payload):
